@@ -10,7 +10,7 @@ CHECKS = {
    note="Trusted: numpy/scipy/networkx/vermouth; the workload generator's bounds (<= 3 molecule types, <= 12 molecules, <= 10 residues each). -split and -lig are not generated.",
    technique="deterministic simulation with fault injection: seeded RNG + decision tape on placement/optimiser seams, output vs ground truth"),
  "C04": dict(level="exploration", design="§4 C04, §3 world A", quick_t=600, thorough_t=3600,
-   text="Two-stage seeded runs (earlier build re-supplied as -c/-mc, cut, -res, -ign) with forced failed attempts; history + final-state oracle that supplied coordinates are never altered, discarded or rebuilt and ignored molecules never take part.",
+   text="Two-stage seeded runs (earlier build re-supplied as -c/-mc (.gro and .pdb), cut, -res, -ign, -mc with -res, an earlier call in the same process reading another structure from the same path) with forced failed attempts; history + final-state oracle that supplied coordinates are never altered, discarded or rebuilt and ignored molecules never take part.",
    note="Trusted as for C03. Ignored molecules are always fully supplied in the input (otherwise gen_coords cannot write them).",
    technique="deterministic simulation with fault injection: forced failed placement attempts on partially supplied systems, history invariants"),
  "C05": dict(level="exploration", design="§4 C05, §3 world A", quick_t=600, thorough_t=3600,
@@ -33,10 +33,10 @@ CHECKS = {
    text="Each job is executed as a family: under 4 hash seeds, twice in a row, with permuted -f/definition order, as a library under permuted os.listdir, with relabelled/shuffled residue graph, and after histories of other (also failing) calls; atom tables and interaction multisets of all members must agree.",
    note="Definitions are non-conflicting by construction; order of interaction lines is not compared.",
    technique="deterministic simulation: environment (hash seed, listdir, file order) and call history as simulated dimensions, differential oracle"),
- "C20": dict(level="fault_enumeration", design="§4 C20, §3 world C", quick_t=900, thorough_t=7200,
-   text="A crash (BaseException) is injected at every call boundary into polyply/vermouth code before the publishing step for gen_params and gen_seq jobs (N ~ 150-2500) and at every distinct function plus a seeded sample for gen_coords; snapshots of the output directory at the crash instant, after the failed call and after later operations in the same process must show the output path untouched; successful runs are checked for completeness and GROMACS-style backups.",
-   note="An exception at a call boundary stands for any failure at that stage; failures inside the final rename are out of scope of the property. sys.settrace only sees Python-level calls.",
-   technique="deterministic simulation with enumerated crash points (sys.settrace), followed by further operations in the same process"),
+ "C20": dict(level="fault_enumeration", design="§4 C20, §9.1, §3 world C", quick_t=900, thorough_t=7200,
+   text="A crash (BaseException) is injected at call boundaries into polyply/vermouth code before the publishing step: at EVERY boundary for one gen_params job (quick; 24 in thorough) and for all jobs with <= 300-600 boundaries (all gen_seq jobs), at the first call of every distinct function plus a seeded sample (denser after the first deferred_open) for the others (gen_coords: ~1e4 boundaries); each crash run continues with further operations in the same process. Directory snapshots at the crash instant, after the failed call and after the later operations must leave the output path and its backups untouched; swallowed failures count as successes; successful runs (also with the publishing rename failing with EXDEV) must publish the complete file and keep the previous one as GROMACS-style backup.",
+   note="An exception at a call boundary stands for any failure at that stage; failures inside the final rename/copy are out of scope of the property. sys.settrace only sees Python-level calls; generator frames are not crash points.",
+   technique="deterministic simulation with enumerated crash points (sys.settrace) and injected EXDEV, followed by further operations in the same process"),
  "C15": dict(level="exploration", design="§4 C15, §3 world A", quick_t=600, thorough_t=3600,
    text="Template generation under seeded RNG and forced optimiser failures (retry loop and fall-through); oracle on the captured topology (grouping, key sets, centring, virtual sites, tolerances, user templates/volumes, positive sizes).",
    note="Trusted as for C03. Only virtual_sitesn(1), virtual_sites2, virtual_sites3(1) are generated; atom names unique per residue.",
@@ -49,7 +49,7 @@ CHECKS = {
    text="Seeded operation histories on the real NonBondEngine, compared operation by operation with a brute-force "
         "reference model (positions dict + minimum-image 12-6 arithmetic) plus a white-box cross-check of the four internal views; "
         "sampling, not proof: histories up to 80 operations, <= 3 small molecules or 5000+ residues around the new-tree threshold.",
-   note="Trusted: scipy KDTree, numpy. Re-adding a positioned residue without removal is treated as outside the contract.",
+   note="Trusted: scipy KDTree, numpy. Re-adding a positioned residue without removal is treated as outside the contract. Every 10th run is a real gen_coords build with the shadow model attached (positions after each mutation, sampled overlap verdicts).",
    technique="deterministic simulation: seeded op histories vs executable reference model"),
 }
 
